@@ -273,7 +273,7 @@ def run_check(check, tier, seed, replay_path=None):
             known_lines.append('KNOWN-FINDING: property=%s %s [%s]' % (check, e['what'], e['id']))
     # ---- verdict
     title = checks.SPEC[check][1]
-    distinct = len(merged['keys']) + int(merged['extra'].get('distinct_nontrivial', 0))
+    distinct = len(merged['keys']) + int(merged['extra'].get('distinct_nontrivial', 0)) + int(merged['extra'].get('distinct_judged_questions', 0))
     minimum = checks.SPEC[check][3]
     inconclusive = []
     if failed:
